@@ -250,6 +250,8 @@ func directQiVerdicts(n *Node, arg int, fail func(class, witness, detail string)
 		return types.TxOut{Denomination: denom, Address: qiAccounts[0].Addr.Bytes()}
 	}
 	checkSig := true
+	cur := ph // the header the transaction is judged under (the fork-side section swaps in copies at other prime terminus heights)
+	var lastCreated [][]byte
 	process := func(tx *types.Transaction, first bool) error {
 		gp := new(types.GasPool).AddGas(ph.GasLimit())
 		var used uint64
@@ -257,7 +259,8 @@ func directQiVerdicts(n *Node, arg int, fail func(class, witness, detail string)
 		ucd := new(core.UtxosCreatedDeleted)
 		ucd.AddressOutpointsToAddMap = make(map[[20]byte][]*types.OutpointAndDenomination)
 		ucd.AddressOutpointsToRemoveMap = make(map[[20]byte][]*types.OutPoint)
-		_, _, _, err, _ := core.ProcessQiTx(tx, hc, checkSig, first, ph, batch, db, gp, &used, signer, LocZone, *params.Blake3PowLocalChainConfig.ChainID, scaling, &rl, &pl, ucd, new(big.Int), new(big.Int), n.Cfg.IndexAddressUtxos)
+		_, _, _, err, _ := core.ProcessQiTx(tx, hc, checkSig, first, cur, batch, db, gp, &used, signer, LocZone, *params.Blake3PowLocalChainConfig.ChainID, scaling, &rl, &pl, ucd, new(big.Int), new(big.Int), n.Cfg.IndexAddressUtxos)
+		lastCreated = ucd.UtxosCreatedKeys
 		return err
 	}
 	a, b := spendable[arg%len(spendable)], spendable[(arg+1)%len(spendable)]
@@ -410,6 +413,133 @@ func directQiVerdicts(n *Node, arg int, fail func(class, witness, detail string)
 			return
 		}
 	}
+	// ---- both sides of every fork that gates the Qi validator (decided on copies of the pending header whose prime terminus
+	// number is moved across the fork; a fork "at block F" is in force from F on): a Qi wrapping transaction and a Qi->Quai
+	// conversion get the same verdict and store the same outputs at F and F+1, and at F-1 and F-2; once wrapping no longer
+	// leaves a local output, no output is stored for a Quai-ledger owner.
+	if len(only) > 0 && !containsAny("fork-sides", only...) {
+		return
+	}
+	if !freshBatch() {
+		return
+	}
+	spent := map[string]bool{}
+	for _, tx := range acceptedSoFar {
+		for _, in := range tx.TxIn() {
+			spent[fmt.Sprintf("%x:%d", in.PreviousOutPoint.TxHash, in.PreviousOutPoint.Index)] = true
+		}
+	}
+	var free *Utxo
+	for i := range spendable {
+		if u := spendable[(arg+i)%len(spendable)]; !spent[u.Key()] && u.Entry.Denomination > 0 {
+			free = &u
+			break
+		}
+	}
+	if free == nil {
+		return
+	}
+	owner := quaiAccounts[1].Addr
+	wrap, err1 := BuildQiTx([]Utxo{*free}, []types.TxOut{{Denomination: lower(*free), Address: quaiAccounts[2].Addr.Bytes()}}, owner.Bytes(), nil)
+	convData := append(make([]byte, 2), qiAccounts[1].Addr.Bytes()...) // slip + refund address
+	conv, err2 := BuildQiTx([]Utxo{*free}, []types.TxOut{{Denomination: lower(*free), Address: quaiAccounts[6].Addr.Bytes()}}, convData, nil)
+	if err1 != nil || err2 != nil {
+		return
+	}
+	var diffOverride *big.Int // the simulated chain's difficulty (thousands) is far from what the post-fork reward formulas assume
+	at := func(ptn uint64) *types.WorkObject {
+		cp := types.CopyWorkObject(ph)
+		h := cp.WorkObjectHeader()
+		h.SetPrimeTerminusNumber(new(big.Int).SetUint64(ptn))
+		if diffOverride != nil {
+			h.SetDifficulty(new(big.Int).Set(diffOverride))
+		}
+		cp.Header().SetBaseFee(big.NewInt(1)) // the fee floor is not what is being judged here
+		if ptn >= params.KawPowForkBlock {    // the post-fork header layout, as the rate functions expect it
+			two32 := new(big.Int).Lsh(common.Big1, 32)
+			h.SetScryptDiffAndCount(types.NewPowShareDiffAndCount(big.NewInt(1_000_000), new(big.Int).Set(two32), big.NewInt(0)))
+			h.SetShaDiffAndCount(types.NewPowShareDiffAndCount(new(big.Int).Mul(params.InitialShaDiffMultiple, new(big.Int).Mul(params.MinDifficultyForShaEquivalentDifficulty, big.NewInt(3))), new(big.Int).Set(two32), big.NewInt(0)))
+			h.SetShaShareTarget(new(big.Int).Set(two32))
+			h.SetScryptShareTarget(new(big.Int).Set(two32))
+			h.SetKawpowDifficulty(big.NewInt(1_000_000_000))
+		}
+		return cp
+	}
+	type outcome struct {
+		accepted bool
+		created  int
+		quaiUtxo bool
+	}
+	judge := func(tx *types.Transaction, ptn uint64) (o outcome, ok bool) {
+		if !freshBatch() {
+			return o, false
+		}
+		cur = at(ptn)
+		defer func() { cur = ph }()
+		perr := guarded(func() error { return process(tx, len(acceptedSoFar) == 0) })
+		if perr != nil && containsAny(perr.Error(), "panic:") {
+			return o, false // header copy not good enough for this height: no verdict
+		}
+		o.accepted = perr == nil
+		if os.Getenv("VERIF_FORKDEBUG") != "" {
+			fmt.Printf("FORKDEBUG ptn=%d type-data=%d accepted=%v err=%v created=%d\n", ptn, len(tx.Data()), o.accepted, perr, len(lastCreated))
+		}
+		if o.accepted {
+			o.created = len(lastCreated)
+			for _, k := range lastCreated {
+				if _, idx, err := rawdb.ReverseUtxoKey(k); err == nil && int(idx) < len(tx.TxOut()) {
+					if common.AddressBytes(tx.TxOut()[idx].Address).IsInQuaiLedgerScope() {
+						o.quaiUtxo = true
+					}
+				}
+			}
+		}
+		return o, true
+	}
+	forks := []forkSide{{"qi-wrapping-change", params.QiWrappingChangeBlock}, {"kawpow", params.KawPowForkBlock}, {"kawpow-hold-end", params.KawPowForkBlock + params.KQuaiChangeHoldInterval},
+		{"sha-equivalent", params.ShaEquivalentDifficultyForkBlock}, {"sha-equivalent-hold-end", params.ShaEquivalentDifficultyForkBlock + params.KQuaiChangeHoldInterval}}
+	for _, f := range forks {
+		for ti, tx := range []*types.Transaction{wrap, conv} {
+			kind := []string{"wrap", "conversion"}[ti]
+			// a difficulty under which the transaction's fee is judged sufficient well away from the fork (same on both sides)
+			diffOverride = nil
+			for _, d := range []*big.Int{nil, big.NewInt(1e12), big.NewInt(1e15)} {
+				diffOverride = d
+				if o, ok := judge(tx, f.at+5); ok && o.accepted {
+					break
+				}
+			}
+			for _, pair := range [][2]uint64{{f.at, f.at + 1}, {f.at - 1, f.at - 2}} {
+				o1, ok1 := judge(tx, pair[0])
+				o2, ok2 := judge(tx, pair[1])
+				if !ok1 || !ok2 {
+					continue
+				}
+				simkit.Global.Inc("qi_fork_sides_compared")
+				if o1 != o2 {
+					side := "at-and-after"
+					if pair[0] < f.at {
+						side = "before"
+					}
+					fail("direct-verdict", fmt.Sprintf("case=fork-sides tx=%s fork=%s side=%s", kind, f.name, side), fmt.Sprintf("a Qi %s transaction is judged %+v under prime terminus %d and %+v under %d (same side of the %s fork)", kind, o1, pair[0], o2, pair[1], f.name))
+					return
+				}
+				if o1.accepted {
+					simkit.Global.Inc("probe.qi_fork_side_with_accepted_tx")
+				}
+				if kind == "wrap" && f.name == "qi-wrapping-change" && pair[0] >= f.at && o1.quaiUtxo {
+					fail("direct-verdict", "case=fork-sides tx=wrap quai-ledger-utxo-after-fork", fmt.Sprintf("under prime terminus %d (wrapping change at %d) the validator stores a Qi output owned by a Quai-ledger address", pair[0], f.at))
+					return
+				}
+			}
+		}
+	}
+}
+
+// forkSides: see the end of directQiVerdicts.
+type forkSide struct {
+	name string
+	at   uint64
 }
 
 func containsAny(s string, subs ...string) bool {
